@@ -701,18 +701,24 @@ func (service *serviceType) handleBuildRequest(id uint32, request map[string]int
 						// to start another rebuild before our "ctx.Cancel" below runs
 						// because our cancel is supposed to cancel the current build, not
 						// some independent future build.
-						activeBuild.rebuildWaitGroup.Add(1)
-						go func() {
-							activeBuild.ctx.Cancel()
+						//
+						// Read the context while holding the mutex. A "dispose" request
+						// that is processed concurrently sets it to nil, and there is
+						// nothing left to cancel in that case.
+						if ctx := activeBuild.ctx; ctx != nil {
+							activeBuild.rebuildWaitGroup.Add(1)
+							go func() {
+								ctx.Cancel()
 
-							// Lock the mutex because "sync.WaitGroup" isn't thread-safe.
-							// But use the wait group that was active at the time the
-							// "OnStart" callback ran instead of the latest one on the
-							// active build in case this goroutine is delayed.
-							activeBuild.mutex.Lock()
-							currentWaitGroup.Done()
-							activeBuild.mutex.Unlock()
-						}()
+								// Lock the mutex because "sync.WaitGroup" isn't thread-safe.
+								// But use the wait group that was active at the time the
+								// "OnStart" callback ran instead of the latest one on the
+								// active build in case this goroutine is delayed.
+								activeBuild.mutex.Lock()
+								currentWaitGroup.Done()
+								activeBuild.mutex.Unlock()
+							}()
+						}
 					}
 					activeBuild.mutex.Unlock()
 					return api.OnStartResult{}, nil
